@@ -108,6 +108,7 @@ fn parse_tier(a: Option<&String>) -> Tier {
 
 fn worker(prop: &str, tier: Tier) -> i32 {
     crash::install(true);
+    crash::tune_allocator();
     let t0 = Instant::now();
     let out = match std::panic::catch_unwind(|| props::run_property(prop, tier)) {
         Ok(o) => o,
